@@ -68,7 +68,16 @@ func genSession(t *rapid.T, o sessOpts) sessCase {
 		sc.Auto.Suback = rapid.SampledFrom([]string{"grant", "grant", "grant", "0", "fail"}).Draw(t, "suback")
 	}
 	if o.smallIDSpace {
-		sc.Cfg.MaxTopicID = uint16(rapid.IntRange(2, 12).Draw(t, "max_topic_id"))
+		n := rapid.IntRange(2, 12).Draw(t, "max_topic_id")
+		lo := 1
+		if rapid.IntRange(0, 2).Draw(t, "top_of_real_range") == 0 {
+			// the real range 1..0xFFFE with all but the top n IDs skipped (never handed out): the
+			// session's own upper bound and wrap-around are exercised, not a scaled one
+			sc.Cfg.SkipIDs = 0xfffe - n
+			lo = 0xfffe - n + 1
+		} else {
+			sc.Cfg.MaxTopicID = uint16(n)
+		}
 		// predefined IDs inside the small range, for this client and for others
 		if rapid.Bool().Draw(t, "predef_in_range") {
 			for _, cl := range []string{"*", "cl", "c2"} {
@@ -76,7 +85,7 @@ func genSession(t *rapid.T, o sessOpts) sessCase {
 					if sc.Cfg.Predef[cl] == nil {
 						sc.Cfg.Predef[cl] = map[uint16]string{}
 					}
-					sc.Cfg.Predef[cl][uint16(rapid.IntRange(1, int(sc.Cfg.MaxTopicID)).Draw(t, "pinid"))] = "p/in-range"
+					sc.Cfg.Predef[cl][uint16(rapid.IntRange(lo, lo+n-1).Draw(t, "pinid"))] = "p/in-range"
 				}
 			}
 		}
@@ -748,8 +757,8 @@ func runC03(c sessCase) (r vf.Result) {
 func TestC04(t *testing.T) {
 	vf.Check(t, vf.Prop[sessCase]{
 		ID: "C04", Name: "topic-ids-unique", Bubble: true,
-		Rule: "registration histories (client REGISTER of new and repeated names, SUBSCRIBE by plain name, broker PUBLISH on new names with the client acknowledging the gateway's REGISTER) run in a session whose topic-ID space is scaled down to 1..N (N in 2..12, through the verif-tagged hook) with predefined IDs placed inside that range (visible to this client and not), 1-40 steps so that sequences run 2-3x past exhaustion. Non-trivial = the script reaches exhaustion (a refused registration) and continues; distinct by script.",
-		Assumptions: []string{"the ID range is 1..N instead of 1..0xFFFE: only the range constant is scaled, the allocation logic is the session's own; the thorough tier additionally runs the real 65534-ID range once",
+		Rule: "registration histories (client REGISTER of new and repeated names, SUBSCRIBE by plain name, broker PUBLISH on new names with the client acknowledging the gateway's REGISTER) run in a session whose topic-ID space is scaled down to 1..N (N in 2..12, through the verif-tagged hook) or, in a third of the cases, is the real range 1..0xFFFE with all but its top N IDs skipped beforehand, with predefined IDs placed inside that range (0xFFFE included) (visible to this client and not), 1-40 steps so that sequences run 2-3x past exhaustion. Non-trivial = the script reaches exhaustion (a refused registration) and continues; distinct by script.",
+		Assumptions: []string{"scaled cases: the ID range is 1..N instead of 1..0xFFFE, only the range constant is scaled, the allocation logic is the session's own; top-of-range cases: the session's ID sequence is advanced 0xFFFE-N times before the session starts (skipped IDs are never handed out), bounds and wrap-around are the real ones",
 			"the same name may get the same ID again (REGISTER) or a new one (second SUBSCRIBE); ending the session instead of refusing is not flagged"},
 		Gen: func(t *rapid.T) sessCase {
 			return genSession(t, sessOpts{smallIDSpace: true, maxSteps: 40})
